@@ -504,6 +504,21 @@ def run_property(prop, tier, seed, only=None):
                                     wall=hard))
         pool.terminate()
 
+    # regression corpus: saved failing inputs of earlier campaigns (fixed
+    # defects) are replayed on every run
+    corpus_n = 0
+    cdir = os.path.join(VERIF, 'corpus', prop)
+    if os.path.isdir(cdir) and not only:
+        for fn in sorted(os.listdir(cdir)):
+            if not fn.endswith('.json'):
+                continue
+            cctx, rec = replay_file(prop, os.path.join(cdir, fn))
+            corpus_n += 1
+            res = cctx.result()
+            res['shard'] = -1
+            res['wall'] = 0.0
+            results.append(res)
+
     harness_errors = [r for r in results if 'harness_error' in r]
     hard_timeouts = [r for r in results if r.get('hard_timeout')]
     good = [r for r in results if 'evaluations' in r]
@@ -577,6 +592,7 @@ def run_property(prop, tier, seed, only=None):
         inconclusive=inconclusive,
         skipped_after_time_budget=skipped,
         shards=len(tasks),
+        corpus_replayed=corpus_n,
         sensitivity=getattr(mod, 'SENSITIVITY', []),
     )
     extra = getattr(mod, 'EXTRA_COVERAGE', None)
